@@ -248,7 +248,7 @@ func c35SchedQuota(c *core.Ctx, e *h2bEnv) {
 	}
 	signGuard := func(v ssa.Value, blk *ssa.BasicBlock) bool {
 		m := func(o ssa.Value) bool { return h2bEq(core.StripConv(o), core.StripConv(v)) }
-		return h2bGuarded(blk, func(r h2bRel) bool {
+		return e.guarded(blk, func(r h2bRel) bool {
 			return r.Cmp(token.GTR, m, h2bIsInt(0)) || r.Cmp(token.GEQ, m, h2bIsInt(0)) || r.Cmp(token.GEQ, m, h2bIsInt(1)) || r.Cmp(token.GTR, m, h2bIsInt(-1))
 		})
 	}
@@ -449,7 +449,7 @@ func c35SchedQuota(c *core.Ctx, e *h2bEnv) {
 			}
 			return false
 		}
-		return h2bGuarded(blk, func(r h2bRel) bool {
+		return e.guarded(blk, func(r h2bRel) bool {
 			return r.Cmp(token.GTR, isQuota, h2bIsInt(0)) || r.Cmp(token.GEQ, isQuota, h2bIsInt(1))
 		})
 	}
@@ -620,7 +620,7 @@ func c35SchedQuota(c *core.Ctx, e *h2bEnv) {
 		for _, r := range rets {
 			v := core.RetVals(r)[0]
 			if k, isK := h2bBool(v); isK {
-				if k && !h2bGuarded(r.Block(), func(rel h2bRel) bool { return rel.Flag(false, isOK(q)) }) {
+				if k && !e.guarded(r.Block(), func(rel h2bRel) bool { return rel.Flag(false, isOK(q)) }) {
 					ok = false
 				}
 				continue
@@ -634,7 +634,7 @@ func c35SchedQuota(c *core.Ctx, e *h2bEnv) {
 		return ok
 	}
 	noPayloadGuard := func(arg ssa.Value, blk *ssa.BasicBlock) bool {
-		return h2bGuarded(blk, func(r h2bRel) bool {
+		return e.guarded(blk, func(r h2bRel) bool {
 			return r.Flag(true, func(v ssa.Value) bool {
 				call, ok := v.(*ssa.Call)
 				if !ok || len(call.Call.Args) != 1 || !h2bEq(call.Call.Args[0], arg) {
@@ -698,7 +698,7 @@ func c35SchedQuota(c *core.Ctx, e *h2bEnv) {
 					idx = j
 				}
 				c.Check(rule, key, in.Pos(), idx >= 0,
-					"the "+kind+" bound "+core.Render(b)+" in "+h2bShort(fn)+" comes from flow.available(), which is negative after the peer lowered SETTINGS_INITIAL_WINDOW_SIZE (RFC 7540 6.9.2), and no test of its sign controls this site (a `== 0` test lets negative values through); the window is not that of the head frame of a *writeQueue parameter either, so no caller-side filter can be checked: run-time panic `slice bounds out of range` on the serve goroutine; guards: "+h2bGuardList(in.Block()))
+					"the "+kind+" bound "+core.Render(b)+" in "+h2bShort(fn)+" comes from flow.available(), which is negative after the peer lowered SETTINGS_INITIAL_WINDOW_SIZE (RFC 7540 6.9.2), and no test of its sign controls this site (a `== 0` test lets negative values through); the window is not that of the head frame of a *writeQueue parameter either, so no caller-side filter can be checked: run-time panic `slice bounds out of range` on the serve goroutine; guards: "+e.guardList(in.Block()))
 				if idx < 0 {
 					continue
 				}
@@ -713,8 +713,8 @@ func c35SchedQuota(c *core.Ctx, e *h2bEnv) {
 				}
 				d.n++
 				q := ssa.Value(fn.Params[idx])
-				if !(h2bGuarded(in.Block(), func(r h2bRel) bool { return r.Flag(true, isOK(q)) }) &&
-					h2bGuarded(in.Block(), func(r h2bRel) bool {
+				if !(e.guarded(in.Block(), func(r h2bRel) bool { return r.Flag(true, isOK(q)) }) &&
+					e.guarded(in.Block(), func(r h2bRel) bool {
 						return r.Cmp(token.GTR, payloadLen(q), h2bIsInt(0)) || r.Cmp(token.GEQ, payloadLen(q), h2bIsInt(1)) || r.Cmp(token.NEQ, payloadLen(q), h2bIsInt(0))
 					})) {
 					d.payload = false
@@ -740,7 +740,7 @@ func c35SchedQuota(c *core.Ctx, e *h2bEnv) {
 				ok, usedPred = true, true
 			}
 			c.Check(rule, key, in.Pos(), ok,
-				h2bShort(s.Fn)+" hands "+core.Render(arg)+" to "+fn.Name()+", which slices the head frame's payload by a value taken from flow.available() without testing its sign; the queue is not known to have send quota here (no `F(q) > 0` with F <= available() of its head frame, not an element of a slice filled only under such a test) nor to have a head frame without DATA payload: when the peer has lowered SETTINGS_INITIAL_WINDOW_SIZE while DATA is queued the stream's send window is negative and "+fn.Name()+" panics `slice bounds out of range` on the serve goroutine (connection dropped without GOAWAY); guards: "+h2bGuardList(in.Block()))
+				h2bShort(s.Fn)+" hands "+core.Render(arg)+" to "+fn.Name()+", which slices the head frame's payload by a value taken from flow.available() without testing its sign; the queue is not known to have send quota here (no `F(q) > 0` with F <= available() of its head frame, not an element of a slice filled only under such a test) nor to have a head frame without DATA payload: when the peer has lowered SETTINGS_INITIAL_WINDOW_SIZE while DATA is queued the stream's send window is negative and "+fn.Name()+" panics `slice bounds out of range` on the serve goroutine (connection dropped without GOAWAY); guards: "+e.guardList(in.Block()))
 		}
 	}
 	if usedPred {
@@ -895,11 +895,11 @@ func c38TrailerSet(c *core.Ctx, e *h2bEnv, trailersF *types.Var) {
 			key := ord.key(name + ":insert")
 			c.Check(rule, key+":canonical", s.Store.Pos(), isCanon(v),
 				"the trailer name inserted into rws.trailers is "+core.Render(v)+", not the result of CanonicalHeaderKey: the trailers frame looks the name up in the handler's header map (canonical keys) and would lose the value")
-			okG := h2bGuarded(app.Block(), func(r h2bRel) bool {
+			okG := e.guarded(app.Block(), func(r h2bRel) bool {
 				return r.Flag(false, func(o ssa.Value) bool { return isMember(o, base, v) })
 			})
 			c.Check(rule, key+":once", s.Store.Pos(), okG,
-				"a trailer name is appended to rws.trailers without a negative membership test of the very value that is appended ("+core.Render(v)+") on rws.trailers: a test on another spelling of the name (e.g. before CanonicalHeaderKey, while the set holds canonical names) does not see the earlier declaration, the name is stored twice and the trailing HEADERS frame carries the field twice; guards: "+h2bGuardList(app.Block()))
+				"a trailer name is appended to rws.trailers without a negative membership test of the very value that is appended ("+core.Render(v)+") on rws.trailers: a test on another spelling of the name (e.g. before CanonicalHeaderKey, while the set holds canonical names) does not see the earlier declaration, the name is stored twice and the trailing HEADERS frame carries the field twice; guards: "+e.guardList(app.Block()))
 		}
 	}
 	if contains != nil && len(contains.Params) == 2 {
@@ -914,7 +914,7 @@ func c38TrailerSet(c *core.Ctx, e *h2bEnv, trailersF *types.Var) {
 			if !v {
 				continue
 			}
-			if h2bGuarded(r.Block(), func(rel h2bRel) bool {
+			if e.guarded(r.Block(), func(rel h2bRel) bool {
 				return rel.Cmp(token.EQL, h2bIsRangeElemOf(contains.Params[0]), h2bIs(contains.Params[1]))
 			}) {
 				ok = true
@@ -977,7 +977,7 @@ func c38ChunkOrder(c *core.Ctx, e *h2bEnv) {
 	}
 	// bufferEmptyAt: at instruction in of fn the buffer of rws is known to hold nothing.
 	bufferEmptyAt := func(fn *ssa.Function, in ssa.Instruction, rws ssa.Value) bool {
-		if h2bGuarded(in.Block(), func(r h2bRel) bool {
+		if e.guarded(in.Block(), func(r h2bRel) bool {
 			isBuffered := func(v ssa.Value) bool { return bufCall(v, rws, "Buffered") }
 			return r.Cmp(token.EQL, isBuffered, h2bIsInt(0)) || r.Cmp(token.LEQ, isBuffered, h2bIsInt(0)) || r.Cmp(token.LSS, isBuffered, h2bIsInt(1))
 		}) {
@@ -1033,7 +1033,7 @@ func c38ChunkOrder(c *core.Ctx, e *h2bEnv) {
 			}
 		}
 		c.Check(rule, ord.key(name+":writeChunk"), in.Pos(), empty,
-			name+" calls writeChunk directly, past the response buffer rws.bw, without the buffer being known empty (no `rws.bw.Buffered() == 0` controlling the call, no rws.bw.Flush() before it): bytes of earlier Write/WriteString calls that are still buffered are sent after this chunk, so the DATA frames carry the body out of order (and the response HEADERS, content-type sniffing included, are derived from the wrong chunk); guards: "+h2bGuardList(in.Block()))
+			name+" calls writeChunk directly, past the response buffer rws.bw, without the buffer being known empty (no `rws.bw.Buffered() == 0` controlling the call, no rws.bw.Flush() before it): bytes of earlier Write/WriteString calls that are still buffered are sent after this chunk, so the DATA frames carry the body out of order (and the response HEADERS, content-type sniffing included, are derived from the wrong chunk); guards: "+e.guardList(in.Block()))
 	}
 	if n == 0 {
 		c.Check(rule, "writeChunk:callers", token.NoPos, false, "no call of responseWriterState.writeChunk found in bfe_http2")
